@@ -152,6 +152,12 @@ def oracle(parts, outcome, obs):
                         kind, val = pyspec.ac12_altitude(code)
                         if kind == "ft" and got.get("alt") != str(val):
                             fails.append("segment %d: DF17 TC%d altitude code %d shows %s, latest carrier says %d" % (k, tc, code, got.get("alt"), val))
+                if df == 17 and 5 <= tc <= 8 and got.get("alt") != "-":
+                    fails.append("segment %d: surface position squitter (TC%d) leaves altitude %s, the property says it blanks it" % (k, tc, got.get("alt")))
+                if df in (20, 21) and existing and opts.get("R") == "1" and getbits(v, nb, 33, 40) == 0x20:
+                    cs = '"%s"' % "".join(ia5(getbits(v, nb, 41 + 6 * i, 46 + 6 * i)) for i in range(8))
+                    if got.get("ais") != cs:
+                        fails.append("segment %d: BDS 2,0 reply under -R shows callsign %s, latest carrier says %s" % (k, got.get("ais"), cs))
                 if df in (5, 21) and (existing or df == 5):
                     want = "%d" % pyspec.id13_squawk(getbits(v, nb, 20, 32))
                     if got.get("sq") != want:
